@@ -29,6 +29,14 @@ impl SwiftField for Field19 {
     where
         Self: Sized,
     {
+        if input.len() > 17 {
+            return Err(crate::errors::ParseError::InvalidFormat {
+                message: format!(
+                    "Field 19 must not exceed 17 characters, found {}",
+                    input.len()
+                ),
+            });
+        }
         let amount = parse_amount(input)?;
 
         Ok(Field19 { amount })
